@@ -466,7 +466,7 @@ def run(ctx):
     tier, seed = ctx["tier"], ctx["seed"]
     wide = 4 if ctx.get("widened") else 1
     n_random = C.Budget(tier, 700, 6000).n * wide
-    deadline = t0 + (420 if tier == "thorough" else 34) * (2.5 if wide > 1 else 1)
+    deadline = t0 + (420 if tier == "thorough" else 50) * (2.0 if wide > 1 else 1)
     run_ = CC.Runner(res, "C04", ctx, oracle, valid=well_formed)
     probes = CC.vocab_probes(VOCAB, [TX, TY, TZ, TS])
 
